@@ -578,9 +578,21 @@ def st_twostep(draw, decades=(-2.0, 3.0)):
 def st_cubic(draw, decades=(-2.0, 3.0), family="cubic"):
     g = draw(_f(0.05, 0.6))
     lam = draw(_f(0.02, 0.3))
-    # A^2 < q * 4 lam g with q < 0.85 keeps Tc and the spinodal T1 at finite distance
-    A = math.sqrt(draw(_f(0.05, 0.85)) * 4.0 * lam * g)
-    y = draw(_f(0.1, 0.95))
+    if family == "traced":
+        # The numerical trace of the low-T phase runs up to 1.2 x the template model's largest T-
+        # (WallGoManager.initTemperatureRange).  If the spinodal T1 of the broken phase lies inside that
+        # range, tracePhase (paranoid re-minimisation) silently continues in the symmetric minimum and the
+        # tabulated "low-T phase" has a jump.  Keep T1 >= 1.45 Tn by construction:
+        # T1/T0 = 1/sqrt(1-q), Tc/T0 = 1/sqrt(1-8q/9), Tn/T0 = 1 + y (Tc/T0 - 1).
+        q = draw(_f(0.55, 0.9))
+        r1, rc = 1.0 / math.sqrt(1.0 - q), 1.0 / math.sqrt(1.0 - 8.0 * q / 9.0)
+        ymax = min(0.95, (r1 / 1.45 - 1.0) / (rc - 1.0))
+        y = ymax * draw(_f(0.15, 1.0))
+    else:
+        # A^2 = q * 4 lam g with q < 0.85 keeps Tc and the spinodal T1 at finite distance
+        q = draw(_f(0.05, 0.85))
+        y = draw(_f(0.1, 0.95))
+    A = math.sqrt(q * 4.0 * lam * g)
     amin = cubic_amin(g, A, lam, y)
     a = max(amin, 0.02) * (1.0 + 10.0 ** draw(_f(-1.5, 1.5)))
     return {"family": family, "Tn": draw(st_tn(decades)), "g": g, "A": A, "lam": lam, "a": a, "y": y}
